@@ -578,7 +578,7 @@ func init() {
 		Classes: []fw.Class{
 			{Name: "mutations", Quick: 200000, Thorough: 12000000, Run: c04Mutations, RawReplay: c04RawReplay},
 			{Name: "every-prefix", Quick: 3000, Thorough: 100000, Run: c04Truncations},
-			{Name: "hex-sql", Quick: 20000, Thorough: 1000000, Run: c04Wrappers},
+			{Name: "hex-sql", Quick: 50000, Thorough: 1000000, Run: c04Wrappers},
 			{Name: "large-within-limits", Quick: 3000, Thorough: 100000, Run: c04LargeWithinLimits, RawReplay: c04RawReplay},
 		},
 		Extra: fuzzExtra("C04", 3000000),
